@@ -89,3 +89,34 @@ def find_store_site(prog: Program, mod: str, qual: str, attr: str) -> ast.AST:
                     if best is None or n.lineno > best.lineno:
                         best = n
     return best or fn
+
+
+SYSTEM_CATALOG_VIEWS = {"information_schema.tables", "information_schema.columns", "information_schema.schemata", "information_schema.views",
+                        "duckdb_tables", "duckdb_views", "duckdb_columns", "duckdb_schemas", "duckdb_constraints", "duckdb_tables()", "duckdb_views()"}
+CATALOG_COLUMNS = ("table_catalog", "catalog_name", "database_name")
+NAME_COLUMNS = ("table_name", "table_schema", "schema_name", "view_name")
+
+
+def unscoped_lookups(prog: Program, kinds=None):
+    """[(kind, text, site)]: statements fakesnow itself sends that look an object up by name in one of DuckDB's catalog-wide
+    system views (they span every attached database) without a conjunct on the database."""
+    import re as _re
+
+    out = []
+    n = 0
+    for kind in (kinds or all_kinds()):
+        for tr in traces(prog, kind):
+            for sqlv, _, site in tr.hooks.calls:
+                k, root = sql_root(sqlv)
+                txt = text_of(sqlv) if k == "text" else text_of(getattr(root, "parsed_from", None)) if k == "node" and getattr(root, "parsed_from", None) is not None else ""
+                low = " ".join(txt.lower().split())
+                m = _re.search(r"\bfrom\s+((information_schema\.(tables|columns|schemata|views))|duckdb_(tables|views|columns|schemas|constraints)(\(\))?)\b", low)
+                if not m or _re.search(r"\}\s*\.\s*information_schema", low[:m.start() + 30]):
+                    continue
+                where = low[m.end():]
+                if not any(_re.search(r"\b" + c + r"\b\s*\)?\s*={1,2}\s*('?\{|\?|\$\d)", where) for c in NAME_COLUMNS):
+                    continue  # a listing (constant filters only), not a lookup of a given name (scope rules: C09.a/b)
+                n += 1
+                if not any(_re.search(r"\b" + c + r"\b", where) for c in CATALOG_COLUMNS):
+                    out.append((kind, " ".join(txt.split())[:160], site))
+    return out, n
